@@ -32,13 +32,13 @@ from transval import hx, unhx
 
 SPEC = {
     "prop": "C07",
-    "lean_targets": ["InfernoVerif.Props.C07", "InfernoVerif.Props.C07Glue", "InfernoVerif.Model.Reducer", "InfernoVerif.Gen.Dispatch"],
-    "prop_files": ["InfernoVerif/Props/C07.lean", "InfernoVerif/Props/C07Glue.lean"],
+    "lean_targets": ["InfernoVerif.Props.C07", "InfernoVerif.Props.C07Glue", "InfernoVerif.Props.C07GlueProg", "InfernoVerif.Model.Reducer", "InfernoVerif.Gen.Dispatch"],
+    "prop_files": ["InfernoVerif/Props/C07.lean", "InfernoVerif/Props/C07Glue.lean", "InfernoVerif/Props/C07GlueProg.lean"],
     "lemma_files": ["InfernoVerif/Lemmas/Trace.lean", "InfernoVerif/Lemmas/Reducer.lean"],
     "model_files": ["InfernoVerif/Model/Reducer.lean", "InfernoVerif/Gen/TraceF.lean", "InfernoVerif/Gen/TraceR.lean",
                     "InfernoVerif/Gen/InterpolationF.lean", "InfernoVerif/Gen/InterpolationR.lean",
                     "InfernoVerif/Gen/SmoothingF.lean", "InfernoVerif/Gen/SmoothingR.lean"],
-    "translate": ["Trace", "Interpolation", "Smoothing", "ReducerSites"],
+    "translate": ["Trace", "Interpolation", "Smoothing", "ReducerSites", "ReducerProg"],
     "driver_targets": ["InfernoVerif.Model.Reducer", "InfernoVerif.Gen.TraceF", "InfernoVerif.Gen.InterpolationF",
                        "InfernoVerif.Gen.SmoothingF", "InfernoVerif.Gen.Dispatch"],
     "assumptions": [
